@@ -1,4 +1,5 @@
 """C11 — separate-process mode contains every way a test can die. DESIGN.md section 4, C11."""
+import itertools
 import re
 from .common import *
 from cpv.ceval import Evaluator, Unknown
@@ -209,6 +210,35 @@ def check(ctx, run):
         want = ("fn", "helperDoRunOneTestSeperateProcess" if sepv else "helperDoRunOneTestInCurrentProcess")
         got = [(x[0], x[1].split("::")[-1]) if isinstance(x, tuple) else x for x in jumps]
         run.ob("R4", "runOneTest folded [separate process = %d]: enters the %s runner under SetJmp, once" % (sepv, "separate-process" if sepv else "in-process"), ro.site, got == [want], witness=[str(x) for x in jumps])
+    # SIBLING: a subclass that overrides runOneTest must not get round the choice: folded with separate-process mode on, over every
+    # valuation of the subclass's own bool members, whatever runs the test body goes through the separate-process runner
+    overrides = sorted((g for g in prog.functions.values() if g.name == "runOneTest" and g.cls in prog.subclasses("UtestShell") and g.cls != "UtestShell"), key=lambda g: g.qn)
+    if not overrides:
+        run.broke("C11.R4: no override of UtestShell::runOneTest found (IgnoredUtestShell::runOneTest confirmed by hand)")
+    for g in overrides:
+        run.analysed(g)
+        flags = [fl["name"] for fl in prog.records.get(g.cls, {}).get("fields", []) if (fl.get("ct") or "") in ("bool", "_Bool")]
+        bad, nworld = None, 0
+        for vals_ in itertools.product((0, 1), repeat=len(flags)):
+            nworld += 1
+            jumps, direct = [], []
+            env = {q["name"]: 5 for q in g.params}
+            env.update(dict(zip(flags, vals_)))
+            ev = Evaluator(prog, g, env=env, calls={"UtestShell::isRunInSeperateProcess": lambda *a_: 1, "PlatformSpecificSetJmp": lambda fn_, data: (jumps.append(fn_), 1)[1],
+                                                    "UtestShell::runOneTestInCurrentProcess": lambda *a_: (direct.append("runOneTestInCurrentProcess"), 0)[1],
+                                                    "helperDoRunOneTestInCurrentProcess": lambda *a_: (direct.append("helperDoRunOneTestInCurrentProcess"), 0)[1]})
+            ev.inline = {"UtestShell::runOneTest"}
+            ev.optional_stubs = set(ev.calls)
+            try:
+                ev.run_blocks(g.entry, max_steps=600)
+            except Unknown as u:
+                raise AnalysisBroken("C11.R4: %s cannot be folded: %s" % (g.qn, u))
+            names_ = [x[1].split("::")[-1] if isinstance(x, tuple) else str(x) for x in jumps] + direct
+            wrong = [x for x in names_ if x != "helperDoRunOneTestSeperateProcess"]
+            if wrong and bad is None:
+                bad = "with %s the test is run through %s although it is to run in a separate process" % (dict(zip(flags, vals_)), wrong)
+        run.ob("R4", "%s (override) folded with separate-process mode on over %d valuation(s) of %s: the test body is reached only through the separate-process runner" % (g.qn, nworld, flags or "no flags"), g.site, bad is None,
+               witness=bad or "%d worlds" % nworld, what="" if bad is None else "a crash in such a test takes the whole run down instead of being recorded as one failed test: " + bad)
     hs = prog.fn("helperDoRunOneTestSeperateProcess")
     run.analysed(hs)
     got = []
